@@ -50,6 +50,9 @@ def atom(rng: random.Random, reversed_ok=True) -> str:
             lit = ", ".join(rng.sample(PV[:-1], rng.choice([1, 2, 3])))
             return f"python_version {op} {q(lit)}"
         lit = rng.choice(PV)
+        if rng.random() < 0.12:
+            # trailing ".0" segments change nothing for python_version (it is always X.Y): "3.8.0" compares like "3.8"
+            lit = rng.choice(["3.8.0", "2.7.0", "3.10.0", "3.9.0.0"])
         if op == "~=" and "." not in lit:
             lit = "3.8"
         if op in ("==", "!=") and rng.random() < 0.2:
@@ -64,7 +67,14 @@ def atom(rng: random.Random, reversed_ok=True) -> str:
             lit = rng.choice(PFV_SUFFIX)
         return _cmp("python_full_version", op, lit, rng, reversed_ok)
     if k < 0.87:
-        op = rng.choice(["<", "<=", ">", ">=", "==", "!="])
+        op = rng.choice(["<", "<=", ">", ">=", "==", "!=", "<", ">=", "~="])
+        if op in ("==", "!=", "~=") and rng.random() < 0.35:
+            # compatible-release and wildcard atoms on the other version-valued variables
+            var = rng.choice(["platform_release", "implementation_version"])
+            lit = rng.choice(["5.4", "5.10.1", "7.3"]) if op == "~=" else rng.choice(["5.*", "5.4.*", "7.3.*"])
+            return _cmp(var, op, lit, rng, reversed_ok)
+        if op == "~=":
+            op = "=="
         if rng.random() < 0.4:
             # a version-valued variable that is not one of the python_version pair (PyPy reports e.g. 7.3.11)
             return _cmp("implementation_version", op, rng.choice(["3.8", "3.9", "3.8.0", "7.3.1", "7.3.10"]), rng, reversed_ok)
@@ -77,6 +87,8 @@ REFLECT = {"<": ">", "<=": ">=", ">": "<", ">=": "<=", "==": "==", "!=": "!=", "
 
 
 def _cmp(var, op, lit, rng, reversed_ok):
+    if op == "~=" and var not in ("python_version", "python_full_version"):
+        reversed_ok = False   # "lit" ~= name builds ~=<environment value>: undefined (for packaging too) when that value has one segment ("6")
     if reversed_ok and rng.random() < (0.2 if (op != "~=" and "*" not in lit) else 0.12):
         # "lit" ~= name and wildcard literals on the left are valid PEP 508 too (and are not the mirror image of the atom with the variable first)
         return f"{q(lit)} {REFLECT[op]} {var}"
@@ -155,6 +167,10 @@ def env_grid(texts, rng: random.Random, limit=48):
             env[v] = rng.choice(cand + pool[:2] + ["zzz"])
         env["extra"] = rng.choice(extra_sets)
         envs.append(env)
+    # environments with a final interpreter first: the oracles stop at the first failing environment, and a failure on a final
+    # interpreter must never be hidden behind (and classed as) one on a pre-release interpreter
+    import re as _re
+    envs.sort(key=lambda e: bool(_re.search(r"(a|b|rc|dev|post)\d*$", str(e.get("python_full_version", "")))))
     return envs
 
 
